@@ -23,9 +23,21 @@ _EXC_PARENTS = {
 }
 
 
+class Obj(dict):
+    """Model of an object: a dictionary of attributes that hashes and compares by identity (usable as a dictionary key)."""
+
+    __hash__ = object.__hash__
+
+    def __eq__(self, other):
+        return self is other
+
+    def __ne__(self, other):
+        return self is not other
+
+
 def _is_object(d):
     """Dictionaries that model objects (compared by identity) as opposed to dictionaries that model mappings."""
-    return "name" in d or any(isinstance(k, str) and k.startswith("__") for k in d)
+    return isinstance(d, Obj) or "name" in d or any(isinstance(k, str) and k.startswith("__") for k in d)
 
 
 class Unknown:
@@ -447,7 +459,7 @@ class Interp:
                 base, idx = self.ev(target.value), self.ev(target.slice)
             except AnalysisError:
                 base = idx = None
-            if isinstance(base, (dict, list)) and not isinstance(idx, (Unknown, dict, list)) and idx is not None:
+            if isinstance(base, (dict, list)) and (isinstance(idx, Obj) or not isinstance(idx, (Unknown, dict, list))) and idx is not None:
                 try:
                     base[idx] = val
                 except (IndexError, TypeError) as exc:
